@@ -148,7 +148,7 @@ var oxxFieldHeaderMap = map[string]*MatchField{
 	"NXM_NX_ND_SLL":        newMatchFieldHeader(OXM_CLASS_NXM_1, NXM_NX_ND_SLL, 6),
 	"NXM_NX_ND_TLL":        newMatchFieldHeader(OXM_CLASS_NXM_1, NXM_NX_ND_TLL, 6),
 	"NXM_NX_IP_FRAG":       newMatchFieldHeader(OXM_CLASS_NXM_1, NXM_NX_IP_FRAG, 1),
-	"NXM_NX_IPV6_LABEL":    newMatchFieldHeader(OXM_CLASS_NXM_1, NXM_NX_IPV6_LABEL, 1),
+	"NXM_NX_IPV6_LABEL":    newMatchFieldHeader(OXM_CLASS_NXM_1, NXM_NX_IPV6_LABEL, 4),
 	"NXM_NX_IP_ECN":        newMatchFieldHeader(OXM_CLASS_NXM_1, NXM_NX_IP_ECN, 1),
 	"NXM_NX_IP_TTL":        newMatchFieldHeader(OXM_CLASS_NXM_1, NXM_NX_IP_TTL, 1),
 	"NXM_NX_MPLS_TTL":      newMatchFieldHeader(OXM_CLASS_NXM_1, NXM_NX_MPLS_TTL, 1),
